@@ -1,3 +1,25 @@
-/- C07 — property theorems over Qfx.Model.Session (placeholder being filled; see checklist at the end) -/
+/- C07 — resets and continuity. First theorems; whole-history continuity in progress (DESIGN §5 C07). -/
 import Qfx.Spec.Session
-open Qfx Qfx.Sess Qfx.SessSpec
+open Qfx Qfx.Sess
+
+/-- a reset returns both counters to 1, forgets all messages and starts a new epoch -/
+theorem C07_reset_counters (s : Sess) :
+    s.storeReset.store.sender = 1 ∧ s.storeReset.store.target = 1 ∧ s.storeReset.store.msgs = [] ∧ s.storeReset.store.epoch = s.store.epoch + 1 :=
+  ⟨rfl, rfl, rfl, rfl⟩
+
+/-- FIX.4.0 never initiates the reset flag -/
+theorem C07_fix40_never_sends_flag (s : Sess) (h : s.cfg.bs = 0) : shouldSendReset s = false := by
+  simp [shouldSendReset, h]
+
+/-- the flag is only initiated when a reset option is configured and both counters are 1 -/
+theorem C07_send_reset_only_when_configured (s : Sess) (h : shouldSendReset s = true) :
+    (s.cfg.resetOnLogon || s.cfg.resetOnDisconnect || s.cfg.resetOnLogout) = true ∧ s.store.target = 1 ∧ s.store.sender = 1 := by
+  unfold shouldSendReset at h
+  split at h
+  · cases h
+  · simp only [Bool.and_eq_true, beq_iff_eq] at h
+    exact ⟨h.1.1, h.1.2, h.2⟩
+
+/-- ResetOnLogout / ResetOnDisconnect go through dropAndReset: counters (1,1), queue dropped -/
+theorem C07_dropAndReset (s : Sess) : (dropAndReset s).store.sender = 1 ∧ (dropAndReset s).store.target = 1 ∧ (dropAndReset s).toSend = [] :=
+  ⟨rfl, rfl, rfl⟩
